@@ -49,6 +49,18 @@ func c03Hex(t *rapid.T, label string) string {
 	return hex.EncodeToString(rapid.SliceOfN(rapid.Byte(), 0, 6).Draw(t, label))
 }
 
+// c03Routes are deposit targets that mean something to fxcore (module, chain and IBC routes in every spelling the target
+// parser knows, and near misses of them); claims carry them hex-encoded.
+var c03Routes = []string{"", "erc20", "module/evm", "chain/gravity", "gravity", "eth", "chain/eth", "bsc", "chain/bsc", "tron", "ibc/0/px", "px/transfer/channel-0",
+	"ibc/px/transfer/channel-0", "channel-0/px", "transfer/channel-0", "ibc/1/px", "px/transfer/channel-1", "ibc/0/cosmos", "cosmos/transfer/channel-0", "0/px", "ibc/0", "PX/transfer/channel-0", "ERC20"}
+
+func c03Target(t *rapid.T, label string) string {
+	if rapid.Bool().Draw(t, label+".route") {
+		return hex.EncodeToString([]byte(rapid.SampledFrom(c03Routes).Draw(t, label)))
+	}
+	return c03Hex(t, label)
+}
+
 func c03ExtAddr(t *rapid.T, chain, label string) string {
 	return sim.ExtAddrN(chain, "c03", rapid.IntRange(0, 5).Draw(t, label))
 }
@@ -85,7 +97,7 @@ func c03Gen(t *rapid.T, typ, chain string, f *sim.Fixture) crosschaintypes.Exter
 	case "SendToFx":
 		c = &crosschaintypes.MsgSendToFxClaim{
 			TokenContract: c03ExtAddr(t, chain, "token"), Amount: c03Amount(t, "amount"), Sender: c03ExtAddr(t, chain, "sender"),
-			Receiver: f.Users[rapid.IntRange(0, 3).Draw(t, "recv")].Acc().String(), TargetIbc: c03Hex(t, "target"),
+			Receiver: f.Users[rapid.IntRange(0, 3).Draw(t, "recv")].Acc().String(), TargetIbc: c03Target(t, "target"),
 		}
 	case "BridgeCall":
 		n := rapid.IntRange(0, 3).Draw(t, "ntokens")
@@ -172,6 +184,17 @@ func c03Mutations(c crosschaintypes.ExternalClaim, chain string) map[string]func
 			m.Receiver = sim.CosmosKey("c03recv", len(m.Receiver)).Acc().String()
 		})
 		ms["field=target_ibc"] = mut(func(m *crosschaintypes.MsgSendToFxClaim) { m.TargetIbc = flipHex(m.TargetIbc) })
+		ms["field=target_ibc/route"] = func(t *rapid.T) crosschaintypes.ExternalClaim {
+			// another meaningful route (a different spelling, a neighbouring channel, the module instead of the chain ...)
+			n := cloneClaim(c).(*crosschaintypes.MsgSendToFxClaim)
+			for _, r := range rapid.Permutation(c03Routes).Draw(t, "route") {
+				if h := hex.EncodeToString([]byte(r)); h != n.TargetIbc {
+					n.TargetIbc = h
+					break
+				}
+			}
+			return n
+		}
 		ms["field=block_height"] = mut(func(m *crosschaintypes.MsgSendToFxClaim) { m.BlockHeight++ })
 	case *crosschaintypes.MsgBridgeCallClaim:
 		mut := func(f func(m *crosschaintypes.MsgBridgeCallClaim)) func(*rapid.T) crosschaintypes.ExternalClaim {
